@@ -79,6 +79,7 @@ type Monitor struct {
 	Immutable  []string
 	Props      []string
 	GuardHeaps []string // whole heaps havocked at Lock (other types' fields)
+	NonBlocking bool   // no blocking channel operation / wait while the mutex is held
 	File       string
 	Line       int
 }
@@ -582,6 +583,11 @@ func (db *ContractDB) loadContractFile(path string, pkgPath string, src []byte) 
 			} else {
 				curF.LoopDec[k] = c
 			}
+		case "nonblocking":
+			if curM == nil {
+				return fmt.Errorf("%s:%d: nonblocking outside monitor", path, rl.line)
+			}
+			curM.NonBlocking = true
 		case "guards":
 			curM.Guards = append(curM.Guards, strings.Fields(strings.ReplaceAll(rest, ",", " "))...)
 		case "guardheaps":
@@ -699,7 +705,7 @@ func parseSite(s string) (*SiteSpec, error) {
 	ss.Kind = f[k]
 	if k+1 < len(f) {
 		t := f[k+1]
-		if j := strings.Index(t, "#"); j >= 0 && ss.Kind != "go" {
+		if j := strings.Index(t, "#"); j >= 0 && ss.Kind != "go" && ss.Kind != "defer" {
 			n, _ := strconv.Atoi(t[j+1:])
 			ss.Nth = n
 			t = t[:j]
